@@ -121,6 +121,18 @@ VARIANTS = [
          new="        for node, _, _ in tree.traverse():\n            tree.get_legs(node)\n            tree.get_involved(node)\n"),
     dict(name="twin: explicit copy of childless via oset()", kind="twin", file=CORE,
          old="            self.childless = other.childless.copy()", new="            self.childless = other.childless.copy()  # shallow copy"),
+    dict(name="round3: restore_ind recomputes the slice count from dimensions", kind="break", file=CORE,
+         old="        tree.multiplicity //= si.size\n", new="        tree.multiplicity = prod(tree.size_dict[ix] for ix in tree.sliced_inds)\n",
+         expect=("C04-MULTPAIR", "restore_ind")),
+    dict(name="twin: slice count recomputed from the recorded sizes", kind="twin", file=CORE,
+         old="        tree.multiplicity //= si.size\n", new="        tree.multiplicity = prod(s_.size for s_ in tree.sliced_inds.values())\n"),
+    dict(name="round3: rebuild loop in dict order", kind="break", file=CORE,
+         old="        for p, l, r in tree.traverse():\n            if ind in tree.get_legs(l) or ind in tree.get_legs(r):",
+         new="        for p, (l, r) in tuple(tree.children.items()):\n            if ind in tree.get_legs(l) or ind in tree.get_legs(r):",
+         expect=("C04-REBUILD", "restore_ind")),
+    dict(name="twin: rebuild loop over a materialised traversal", kind="twin", file=CORE,
+         old="        for p, l, r in tree.traverse():\n            if ind in tree.get_legs(l) or ind in tree.get_legs(r):",
+         new="        for p, l, r in tuple(tree.traverse()):\n            if ind in tree.get_legs(l) or ind in tree.get_legs(r):"),
 ]
 for v in VARIANTS:
     v.pop("edits", None) if v.get("edits") is None else None
